@@ -6,6 +6,14 @@ import ActixNet.Model.Counter
 handles that own the `Rc`: the live `Sender`s (ids in creation order) and the `Receiver`.
 `Rc::strong_count` is `senders.length + (1 if the receiver is alive)`.
 
+The whole public surface of the crate is an operation: `Sender::{send, close, clone, drop}`,
+`<Sender as Sink>::{poll_ready, start_send, poll_flush, poll_close}`, `Receiver::{recv, sender, drop}`,
+`<Receiver as Stream>::poll_next`, `Debug` of both ends.  `start_send` *is* `send` (:99-101) and the
+`recv()` future *is* `poll_fn(|cx| poll_next(cx))` (:137-140, no state of its own): they are the same
+constructor with a `SendPath` / `RecvPath` tag that `step` does not look at, so every theorem
+quantifies over the entry points.  The `Sink` readiness methods (always `Ready(Ok(()))`; `poll_close`
+does not close the channel), dropping a pending `recv()` future and `Debug` are `Quiet` operations.
+
 Every operation follows the code line by line (`send` :55-67, `Sender::drop` :106-118, `poll_next`
 :151-166, `Receiver::sender` :141-145, `Receiver::drop` :168-174) with **one exception, `close`
 (:73-75) and the corresponding test in `poll_next`**: property C16 demands that `close` wakes a
@@ -42,14 +50,39 @@ def Chan.strong (c : Chan) : Nat := c.senders.length + (if c.recvAlive then 1 el
 /-- the waker of the parked receiver, if any -/
 def Chan.parked (c : Chan) : Option WakerId := c.blocked.waker
 
+/-- the public entry points through which a message is handed to the channel -/
+inductive SendPath where
+  | send        -- `Sender::send`
+  | sink        -- `<Sender as Sink>::start_send` (which is `self.send(item)`)
+deriving Repr, DecidableEq
+
+/-- the public entry points through which the receiver is asked for the next message.  The future
+returned by `recv()` is `poll_fn(|cx| this.poll_next(cx))`: it has no state of its own, so polling a
+pending `recv()` future again, or dropping it and polling a new one, is one more `poll_next`. -/
+inductive RecvPath where
+  | pollNext    -- `<Receiver as Stream>::poll_next`
+  | recv        -- one poll of a `Receiver::recv()` future (a pending one, or a fresh one)
+deriving Repr, DecidableEq
+
+/-- public entry points that must leave the channel as it is and wake nobody -/
+inductive Quiet where
+  | sinkReady (i : Nat)       -- `<Sender as Sink>::poll_ready`  (always `Ready(Ok)`)
+  | sinkFlush (i : Nat)       -- `<Sender as Sink>::poll_flush`  (always `Ready(Ok)`)
+  | sinkClose (i : Nat)       -- `<Sender as Sink>::poll_close`  (always `Ready(Ok)`; does **not** close)
+  | recvDrop                  -- drop a pending `recv()` future (cancellation), if there is one
+  | debugSender (i : Nat)     -- `format!("{:?}", senders[i])`
+  | debugReceiver             -- `format!("{:?}", receiver)`
+deriving Repr, DecidableEq
+
 inductive Op where
-  | send (i x : Nat)          -- `senders[i].send(x)`
-  | clone (i : Nat)           -- `senders[i].clone()`
-  | dropSender (i : Nat)      -- `drop(senders[i])`
-  | close (i : Nat)           -- `senders[i].close()`
-  | poll (w : WakerId)        -- `receiver.poll_next(cx)` with the waker `w`
-  | senderFromReceiver        -- `receiver.sender()`
-  | dropReceiver              -- `drop(receiver)`
+  | send (p : SendPath) (i x : Nat)     -- `senders[i].send(x)` / `start_send(x)`
+  | clone (i : Nat)                     -- `senders[i].clone()`
+  | dropSender (i : Nat)                -- `drop(senders[i])`
+  | close (i : Nat)                     -- `senders[i].close()`
+  | poll (p : RecvPath) (w : WakerId)   -- `receiver.poll_next(cx)` / `receiver.recv()` polled, waker `w`
+  | senderFromReceiver                  -- `receiver.sender()`
+  | dropReceiver                        -- `drop(receiver)`
+  | quiet (k : Quiet)
 deriving Repr, DecidableEq
 
 inductive PollRes where
@@ -64,6 +97,9 @@ inductive Obs where
   | closed (woke : Option WakerId)
   | polled (r : PollRes)
   | receiverDropped
+  | readyOk                                         -- `Poll::Ready(Ok(()))` of the `Sink` methods
+  | futDropped
+  | debug (buffer : List Nat) (hasReceiver : Bool)  -- the fields `Debug` prints
 deriving Repr, DecidableEq
 
 /-- the waker an observation reports as woken -/
@@ -73,9 +109,27 @@ def Obs.woke : Obs → Option WakerId
   | .closed w => w
   | _ => none
 
-/-- one operation; `none` = not applicable (`bad-op`: sender not live, receiver already dropped) -/
+/-- a quiet operation applies to a live sender / the live receiver -/
+def Quiet.applies (c : Chan) : Quiet → Bool
+  | .sinkReady i => c.senders.contains i
+  | .sinkFlush i => c.senders.contains i
+  | .sinkClose i => c.senders.contains i
+  | .recvDrop => c.recvAlive
+  | .debugSender i => c.senders.contains i
+  | .debugReceiver => c.recvAlive
+
+def Quiet.obs (c : Chan) : Quiet → Obs
+  | .sinkReady _ => .readyOk
+  | .sinkFlush _ => .readyOk
+  | .sinkClose _ => .readyOk
+  | .recvDrop => .futDropped
+  | .debugSender _ => .debug c.buffer c.hasReceiver
+  | .debugReceiver => .debug c.buffer c.hasReceiver
+
+/-- one operation; `none` = not applicable (`bad-op`: sender not live, receiver already dropped).
+`send` and `poll` do not look at the entry point they were reached through. -/
 def step (c : Chan) : Op → Option (Chan × Obs)
-  | .send i x =>
+  | .send _ i x =>
     if i ∈ c.senders then
       if c.hasReceiver then
         some ({ c with buffer := c.buffer ++ [x], blocked := c.blocked.wake.1 }, .sent true c.blocked.wake.2)
@@ -95,7 +149,7 @@ def step (c : Chan) : Op → Option (Chan × Obs)
     if i ∈ c.senders then
       some ({ c with hasReceiver := false, blocked := c.blocked.wake.1 }, .closed c.blocked.wake.2)
     else none
-  | .poll w =>
+  | .poll _ w =>
     if c.recvAlive then
       if c.strong == 1 || !c.hasReceiver then
         some ({ c with buffer := c.buffer.tail }, .polled (.ready c.buffer.head?))
@@ -112,6 +166,7 @@ def step (c : Chan) : Op → Option (Chan × Obs)
     if c.recvAlive then
       some ({ c with buffer := [], hasReceiver := false, recvAlive := false }, .receiverDropped)
     else none
+  | .quiet k => if k.applies c then some (c, k.obs c) else none
 
 /-- a history of applicable operations with the observations it produced -/
 def run (c : Chan) : List Op → Option (Chan × List Obs)
@@ -129,13 +184,13 @@ def Reach (c : Chan) : Prop := ∃ ops os, run init ops = some (c, os)
 
 /-! ### what a trace (operations zipped with their observations) says, independent of the state -/
 
-/-- messages whose `send` returned `Ok`, in send order -/
+/-- messages whose `send` / `start_send` returned `Ok`, in send order -/
 def sentOk : List (Op × Obs) → List Nat
   | [] => []
-  | (.send _ x, .sent true _) :: t => x :: sentOk t
+  | (.send _ _ x, .sent true _) :: t => x :: sentOk t
   | _ :: t => sentOk t
 
-/-- messages handed out by `poll_next`, in order -/
+/-- messages handed out by `poll_next` / `recv()`, in order -/
 def received : List (Op × Obs) → List Nat
   | [] => []
   | (_, .polled (.ready (some x))) :: t => x :: received t
